@@ -81,6 +81,7 @@ type Term struct {
 	Sort Sort
 	Ty   types.Type // Go type, when the term stands for a Go value (nil for spec-only terms)
 	Elem Sort       // element sort for slice terms without a Go type
+	Bound []*Term   // quantified variables (Op == "forall"); Args[0] is the body, Args[1:] the pattern terms
 	str  string
 }
 
@@ -93,6 +94,28 @@ func (t *Term) String() string {
 	}
 	if len(t.Args) == 0 {
 		t.str = t.Op
+		return t.str
+	}
+	if t.Op == "forall" {
+		var b strings.Builder
+		b.WriteString("(forall (")
+		for i, v := range t.Bound {
+			if i > 0 {
+				b.WriteByte(' ')
+			}
+			fmt.Fprintf(&b, "(%s %s)", v.Op, v.Sort)
+		}
+		b.WriteString(") (! ")
+		b.WriteString(t.Args[0].String())
+		b.WriteString(" :pattern (")
+		for i, p := range t.Args[1:] {
+			if i > 0 {
+				b.WriteByte(' ')
+			}
+			b.WriteString(p.String())
+		}
+		b.WriteString(")))")
+		t.str = b.String()
 		return t.str
 	}
 	var b strings.Builder
@@ -295,5 +318,10 @@ func (t *Term) subst(m map[string]*Term) *Term {
 	if !changed {
 		return t
 	}
-	return &Term{Op: t.Op, Args: args, Sort: t.Sort, Ty: t.Ty, Elem: t.Elem}
+	return &Term{Op: t.Op, Args: args, Sort: t.Sort, Ty: t.Ty, Elem: t.Elem, Bound: t.Bound}
+}
+
+// Forall builds a quantified formula with one explicit pattern (bound variables are constants named "?x").
+func Forall(bound []*Term, body *Term, pats ...*Term) *Term {
+	return &Term{Op: "forall", Args: append([]*Term{body}, pats...), Sort: SBool, Bound: bound}
 }
